@@ -410,54 +410,52 @@ def check(ctx, run):
         if (seq != want or r != res) and badc is None:
             badc = "calloc(%d, %d) with malloc answering %s: folded %s -> %s, expected %s" % (num, size, res, seq, r, want)
     run.ob("R6", "calloc folded: allocates num*size bytes, zero-fills exactly those bytes of the block it got, touches nothing when the allocation failed", cal.site, badc is None, witness=badc or "6 cases", what=badc or "")
-    sd = prog.fn("strdup_alloc")
-    run.analysed(sd)
-    spn = [p["name"] for p in sd.params]
-    bads = None
-    for size, res in ((1, 70000), (6, 70000), (100, 70000), (6, 0)):
+    # strdup / strndup folded end to end (the file-static helpers inlined, the string a modelled array): one allocation of
+    # copied+1 bytes, the copied characters and a terminator inside it, nothing touched when the allocation failed
+    def fold_dup(f, text, n, res):
         seq = []
-        ev = Evaluator(prog, sd, env={spn[0]: 30000, spn[1]: size, spn[2]: 1, spn[3]: 2}, calls={
+        env = {f.params[0]["name"]: ("ptr", "S", 0)}
+        for i_, ch in enumerate(text + "\0"):
+            env["S[%d]" % i_] = ord(ch)
+        rest = [q["name"] for q in f.params[1:]]
+        vals = ([n] if len(rest) == 3 else []) + [1, 2]
+        env.update(dict(zip(rest, vals)))
+        ev = Evaluator(prog, f, env=env, calls={
             "cpputest_malloc_location": lambda *a_, res=res: (seq.append(("malloc", a_)), res)[1],
             "PlatformSpecificMemCpy": lambda *a_: (seq.append(("memcpy", a_)), a_[0])[1]})
         ev.heap_mode = True
-        try:
-            ev.run_blocks(sd.entry, max_steps=200)
-            r = getattr(ev, "ret", None)
-        except Unknown as u:
-            run.broke("C05.R6: strdup_alloc cannot be folded: %s" % u)
-            break
+        ev.inline = {g.qn for g in prog.functions.values() if g.file == f.file and not g.cls} - set(ev.calls)
+        ev.run_blocks(f.entry, max_steps=20000)
         st = [(k, v) for k, v in ev.stores if k.startswith("@")]
-        want = [("malloc", (size, 1, 2))] + ([("memcpy", (res, 30000, size))] if res else [])
-        wst = [("@%d[%d]" % (res, size - 1), 0)] if res else []
-        if (seq != want or st != wst or r != res) and bads is None:
-            bads = "strdup_alloc(size %d) with malloc answering %s: folded %s, stores %s -> %s; expected %s, %s" % (size, res, seq, st, r, want, wst)
-    run.ob("R6", "strdup_alloc folded: copies size bytes into a size-byte block and terminates at size-1; nothing is written when the allocation failed", sd.site, bads is None, witness=bads or "4 cases", what=bads or "")
-    for fn_, shape in (("cpputest_strdup_location", True), ("cpputest_strndup_location", None)):
+        return seq, st, getattr(ev, "ret", None), list(getattr(ev, "wraps", []))
+    for fn_, has_n in (("cpputest_strdup_location", False), ("cpputest_strndup_location", True)):
         f = prog.fn(fn_)
         run.analysed(f)
-        if shape:
-            for L in (0, 1, 5, 1000):
-                got = []
-                ev = Evaluator(prog, f, env={f.params[0]["name"]: 1, f.params[1]["name"]: 2, f.params[2]["name"]: 3}, calls={
-                    "test_harness_c_strlen": lambda s_, L=L: L, "strdup_alloc": lambda s_, size, *a_: (got.append(size), 0)[1]})
+        cases = [("", None), ("a", None), ("hello", None), ("x" * 40, None)] if not has_n else [("", 0), ("hello", 3), ("hello", 5), ("hello", 9), ("hello", SIZE_MAX), ("", SIZE_MAX), ("sevench", SIZE_MAX - 1), ("hello", 0)]
+        for text, n in cases:
+            for res in (70000, 0):
+                copied = len(text) if n is None else min(len(text), n)
+                inst = "%s(%r%s) with the allocator answering %s" % (fn_.replace("cpputest_", "").replace("_location", ""), text if len(text) < 10 else text[:6] + "...", "" if n is None else ", n=%d" % n, "a block" if res else "NULL")
                 try:
-                    ev.run_blocks(f.entry)
-                    g = got[0] if got else None
+                    seq, st, r, wraps = fold_dup(f, text, n, res)
                 except Unknown as u:
-                    g = "unknown: %s" % u
-                run.ob("R6", "strdup(strlen=%d) allocates %d bytes (size >= 1)" % (L, L + 1), f.site, g == L + 1, witness={"folded": g})
-        else:
-            # fold: length = min(strlen, n) + 1 for representative (strlen, n) incl. n = SIZE_MAX
-            for L, n in ((0, 0), (5, 3), (5, 5), (5, 9), (5, SIZE_MAX), (0, SIZE_MAX), (7, SIZE_MAX - 1)):
-                ev = Evaluator(prog, f, env={f.params[0]["name"]: 1, f.params[1]["name"]: n, f.params[2]["name"]: 2, f.params[3]["name"]: 3})
-                got = []
-                ev.calls["test_harness_c_strlen"] = lambda s, L=L: L
-                ev.calls["strdup_alloc"] = lambda s, size, *a: (got.append(size), 0)[1]
-                try:
-                    ev.run_blocks(f.entry)
-                    g = got[0] if got else None
-                except Unknown as u:
-                    g = "unknown: %s" % u
-                want = min(L, n) + 1
-                run.ob("R6", "strndup(strlen=%d, n=%d) allocates %d bytes" % (L, n, want), f.site, g == want and not getattr(ev, "wraps", None), witness={"folded": g},
-                       what="" if g == want else "allocates %s bytes for a copy of %d characters plus terminator" % (g, min(L, n)))
+                    run.broke("C05.R6: %s cannot be folded: %s" % (fn_, u))
+                    continue
+                why = ""
+                mallocs = [a_ for k, a_ in seq if k == "malloc"]
+                copies = [a_ for k, a_ in seq if k == "memcpy"]
+                if wraps:
+                    why = "size arithmetic wraps: %s" % (wraps[:1],)
+                elif len(mallocs) != 1 or mallocs[0][0] != copied + 1:
+                    why = "allocates %s bytes for a copy of %d characters plus terminator" % ([a_[0] for a_ in mallocs], copied)
+                elif not res:
+                    if copies or st or r != 0:
+                        why = "the allocation failed but memory is written (%s, %s) or %s is returned" % (copies, st, r)
+                else:
+                    term = ("@%d[%d]" % (res, copied), 0) in st or (copies and copies[0][2] == copied + 1 and copied == len(text))
+                    beyond = [k for k, v in st if not re.match(r"^@%d\[(\d+)\]$" % res, k) or int(re.match(r"^@%d\[(\d+)\]$" % res, k).group(1)) > copied]
+                    if len(copies) != 1 or copies[0][0] != res or copies[0][1] != ("ptr", "S", 0) or not (copied <= copies[0][2] <= copied + 1) or copies[0][2] > len(text) + 1:
+                        why = "copies %s; expected %d or %d bytes from the argument into the new block" % (copies, copied, copied + 1)
+                    elif not term or beyond or r != res:
+                        why = "the copy is not terminated at index %d inside the block (stores %s), or %s is returned instead of the block" % (copied, st, r)
+                run.ob("R6", inst + ": %d+1 bytes allocated, the characters copied, terminated inside the block" % copied, f.site, not why, witness=why or {"malloc": mallocs[0][0] if mallocs else None, "memcpy": copies[0][2] if copies else None}, what=why)
